@@ -73,4 +73,8 @@ def judgeAll (lim : Limits) (nEv : Nat) (ctors : List String) (impl : List Strin
 #guard judgeAll lim0 1 [] ["r ret \"kke:101/101\""] != []
 #guard judgeAll lim0 1 [] ["r ret \"kke:100/100\""] == []
 
+/-! ### a regexp match that needs more than the budget pays for must not be followed by a normal return -/
+#guard judgeAll { lim0 with rxMustExpire := true } 1 [] ["r ret 0"] != []
+#guard judgeAll { lim0 with rxMustExpire := true } 1 [] ["r err es=2"] == []
+
 end NV.C04
